@@ -17,10 +17,10 @@ func init() {
 			"is durable before it is acknowledged (WAL record before the in-memory tombstone in the head; tombstones file written, with the previously stored tombstones merged in, before Block.Delete returns), " +
 			"that the tombstones file is checksummed over the bytes it stores and verified before it is decoded, that the head forgets tombstones only of series it deletes, and that the intervals a block querier fetched for a series are the ones " +
 			"handed to its sample and chunk iterators, which bypass the deleting iterator only when no interval overlaps the chunk.",
-		Note:     "Trusted: go/packages, go/types, go/cfg; rule tables in checker/c20.go.  Interval arithmetic (Intervals.Add, IsSubrange, DeletedIterator.Next) is value-level and not decided.",
-		Covers:   "DB.Delete, DB.CleanTombstones, Head.Delete, Block.Delete, Head.gc tombstone pruning, tombstones.WriteFile/ReadTombstones/Encode/Decode pairing, blockBaseSeriesSet.Next, blockSeriesEntry/chunkSeriesEntry.Iterator, populateWithDelGenericSeriesIterator.next.",
-		NotCover: "Intervals.Add normal form; which samples an interval hides; clamping arithmetic.",
-		Run:      runC20,
+		Note:           "Trusted: go/packages, go/types, go/cfg; rule tables in checker/c20.go.  Interval arithmetic (Intervals.Add, IsSubrange, DeletedIterator.Next) is value-level and not decided.",
+		Covers:         "DB.Delete, DB.CleanTombstones, Head.Delete, Block.Delete, Head.gc tombstone pruning, tombstones.WriteFile/ReadTombstones/Encode/Decode pairing, blockBaseSeriesSet.Next, blockSeriesEntry/chunkSeriesEntry.Iterator, populateWithDelGenericSeriesIterator.next.",
+		NotCover:       "Intervals.Add normal form; which samples an interval hides; clamping arithmetic.",
+		Run:            runC20,
 		MinObligations: 45,
 	})
 }
@@ -191,7 +191,9 @@ func runC20(c *eng.Ctx) {
 		// a failing Get stops the iteration with the error recorded
 		n.FailLeadsTo("R3", get, p.Store("tsdb:blockBaseSeriesSet.err"), nil)
 		n.FailStops("R3", get, store)
-		n.Only("R3", eng.Return("true", func(g *eng.Graph, rs *ast.ReturnStmt) bool { return len(rs.Results) == 1 && eng.ExprString(rs.Results[0]) == "true" }),
+		n.Only("R3", eng.Return("true", func(g *eng.Graph, rs *ast.ReturnStmt) bool {
+			return len(rs.Results) == 1 && eng.ExprString(rs.Results[0]) == "true"
+		}),
 			"follows the store of the intervals", func(l eng.Loc) bool {
 				for _, s := range n.Find(store) {
 					if n.Graph.Dom(s, l) {
